@@ -4,6 +4,7 @@ import random
 
 import tlc
 import common
+import pipeline
 import am
 
 ASSUME = [
@@ -83,6 +84,8 @@ def run(pid, tier, seed):
                        "advances): TLC -simulate behaviours of AddrMapM_Gen plus seeded random scripts, each replayed with tick = 7 s / 5 h / "
                        "13 h and the three EXPIRES syntaxes; distinct scripts by hash; non-trivial = >= 2 events and a clock advance")
     res, runs = tlc.validate_parallel("AddrMapMTrace", "AddrMapMTrace.cfg", traces, nproc=12, chunk=300)
+    direct = [i for i, t in enumerate(traces) if t["feed"] == "direct"]        # (every step of these is observed)
+    pipeline.selftest_from(rep, "AddrMapMTrace", "AddrMapMTrace.cfg", [traces[i] for i in direct], [res[i] for i in direct])
     for r in runs:
         rep.cov["states"] += r.distinct
         rep.cov["transitions"] += r.generated
